@@ -37,10 +37,22 @@ def configs(tier):
             for backups in (1, 2):
                 out.append({"scheme": scheme, "backups": backups, "overwrite": 1, "mode": "a", "remove-old": 1,
                             "plant": 0, "limit": 1024})
+    # a second rotating sink `app.aux.log` with rotated files of its own lives in the same directory (its stem extends the
+    # main sink's stem by a dotted component): neither sink may adopt, rename or delete the other's files
+    for scheme in ("index", "date", "datetime"):
+        for backups in ((1, -1) if tier == "quick" else (0, 1, 2, -1)):
+            for mode in ("a", "w"):
+                for overwrite in ((1,) if tier == "quick" or backups == -1 else (1, 0)):
+                    out.append({"scheme": scheme, "backups": backups, "overwrite": overwrite, "mode": mode, "remove-old": 1,
+                                "plant": 0, "limit": 512, "aux": 1})
     return out
 
 
 def depth_for(cfg, tier):
+    if cfg.get("aux"):
+        if cfg["scheme"] == "index":
+            return 5 if tier == "quick" else 6
+        return 3 if tier == "quick" else 4
     if cfg["scheme"] == "index":
         return 6 if tier == "quick" else 8
     return 4 if tier == "quick" else 5
@@ -67,7 +79,7 @@ def run_rot(ctx, exe, cfgs, alphabet, name):
 def run(ctx):
     ctx.rule = ("all write/restart histories up to the depth bound (sizes 200/312/313/600 against limit 512, clock steps "
                 "0/1s/1day, restarts in append and write mode) per configuration (scheme x backups x overwrite x mode x "
-                "clean-up x planted look-alike files); after every step the directory (file name -> statement ids) must "
+                "clean-up x planted look-alike files x a second rotating sink with a dotted-extension stem in the same directory); after every step the directory (file name -> statement ids) must "
                 "equal a reference model of the rotation semantics; distinct = canonical states (directory + sink fields)")
     exe = vf.build("rot", SRC, FLAGS)
     ctx.set_deadline(240 if ctx.tier == "quick" else 1800)
